@@ -120,6 +120,10 @@ def gen(rng, tier):
         else:
             rops.append(["latch_wait", "sent-m", 300])
         rops.append(["sleep", 1.0])
+    if ending == "kill" and pos == "late" and recv_side == "i" and rng.random() < 0.5:
+        # connection already lost (channel in the sendonly state), ordinary local clean-up, and only then the callback
+        rops.append(["sleep", 20.0])
+        rops.append(["close", T])
     rops.append(["setcb", T, want_end, None, None, None, "cb-end"])
     dropped = want_end and recv_side == "i" and T == "c0" and rng.random() < 0.25
     if dropped:
